@@ -268,6 +268,19 @@ def r3_dump_defaults(P, rep, ctx):
         rep.check(ok, "C12.R3", fi.qual, f"dump default {key}=True unless given explicitly", fi.loc(), construct=f"default {key}", message=f"_mod_def_dump_args does not default {key} to True (only when the caller did not pass it)")
     rets = [norm(x.value) for x in walk_local(fi.node) if isinstance(x, ast.Return)]
     rep.check(rets == ["kwargs"], "C12.R3", fi.qual, "returns the adjusted kwargs", fi.loc(), construct="_mod_def_dump_args return", message=f"_mod_def_dump_args returns {rets}")
+    # no other dump option gets a default here: every further exclude_* / include option drops fields from EVERY dump
+    f = F(ctx, fi)
+    kw = fi.params[0]
+    keys = set()
+    for i, v, b in f.stores(f"{kw}[__k]"):
+        keys.add(norm(b["__k"]))
+    for i, c, b in f.call_sites(f"{kw}.setdefault(__k, __v)"):
+        keys.add(norm(b["__k"]))
+    for i, c, b in f.call_sites(f"{kw}.update(___)"):
+        keys |= {repr(k.arg) for k in c.keywords if k.arg} | {norm(k_) for a in c.args if isinstance(a, ast.Dict) for k_ in a.keys if k_ is not None}
+    extra = sorted(k for k in keys if k not in ("'by_alias'", "'exclude_none'"))
+    rep.check(not extra, "C12.R3", fi.qual, "only by_alias and exclude_none get a default", fi.loc(), construct=f"_mod_def_dump_args defaults {sorted(keys)}",
+              message=f"_mod_def_dump_args also sets {extra}: every dict()/json()/yaml()/bytes dump of every schema now applies it (e.g. exclude_unset / exclude_defaults drop values that were never assigned explicitly, such as constants and defaults of nested objects), so the parsed dump is not equal to the instance")
     for m in ("dict", "json"):
         f = P.func(f"{B}.BaseModelPlus.{m}")
         rets = [norm(x.value) for x in walk_local(f.node) if isinstance(x, ast.Return)]
@@ -314,6 +327,16 @@ def r5_parse_config(P, rep, ctx):
         raise AnalysisError("C12.R5: BaseModelPlus.Config not found")
     cfg = cfgs[0]
     got = {k: norm(v) for k, v in cfg.attrs.items()}
+    # Config classes of the schema base classes further down inherit from this one: a value-mapping key set there overrides it
+    chain = {m_ + ".Config" for m_ in P.mro("schema.core.MetadataSchema")}
+    for q, c in sorted(P.classes.items()):
+        if c.name != "Config" or c is cfg or q not in chain:
+            continue
+        for k, v in c.attrs.items():
+            if k in PARSE_CONFIG:
+                want = PARSE_CONFIG[k]
+                rep.check(want is not None and norm(v) == want, "C12.R5", c.qual, f"{q}.{k} does not override the base configuration", c.module.relpath + f":{c.node.lineno}", construct=f"{q}.{k} = {norm(v)}",
+                          message=f"{q}.{k} = {norm(v)} overrides BaseModelPlus.Config ({want if want is not None else 'pydantic default'}) for every schema below it: values are coerced / validated / dumped differently than the round-trip argument assumes (e.g. validate_all=False leaves string defaults unparsed)")
     for k, want in sorted(PARSE_CONFIG.items()):
         have = got.get(k)
         if want is None and have is None:
